@@ -130,18 +130,18 @@ def border_case_term(case, obs):
     return "(mkBC %s %s %s %s %s)" % (surf_term(t), coq_list([ints3(p) for p in t["coords"]]), cyc, al, bnd)
 
 
-def feat_case_term(case, obs):
-    t = obs["tables"]
+def fcase_term(t, exact, pairs):
+    """tables of one mesh + the (options, observation) pairs of every run made on it"""
     e2f = coq_list(["(%s, %s)" % (ozlit(a), ozlit(b)) for a, b in t["e2f"]])
     v2e = coq_list([coq_list([ozlit(e) for e in l]) for l in t["v2e"]])
     hard = "None" if t["hard"] is None else "(Some %s)" % zlist(t["hard"])
     m = "(mkF %s %s %s %s %s [] %s [])" % (zlit(t["nv"]), plist(t["edges"]), e2f, zlist(t["bedges"]), hard, v2e)
     ds = []
     normals = angle = None
-    for opt, d in zip(case["dets"], obs["dets"]):
+    for opt, d in pairs:
         if "exc" in d:
             raise ValueError("detector raised: " + d["exc"])
-        eps = Fraction(0) if case["exact"] else EPS
+        eps = Fraction(0) if exact else EPS
         o = "(mkO %s %s %s)" % (coq_bool(opt["only_border"]), coq_bool(opt["flag_corners"]), zlit(opt["corner_order"]))
         nn = coq_list([q3(n) for n in d["normals"]])
         aa = coq_list(["(%s, %s)" % tuple(zlit(x) for x in me(a)) for a in d["angle"]])
@@ -154,6 +154,22 @@ def feat_case_term(case, obs):
             o, qlit(eps), qlit(EPS), zlist(d["fe"]), zlist(d["fv"]),
             plist(d["deg"]), coq_list(["(%s, %s)" % (zlit(v), zlist(l)) for v, l in d["local"]]), corners))
     return "(mkFC %s %s %s %s)" % (m, normals or "[]", angle or "[]", coq_list(ds))
+
+
+def feat_case_terms(case, obs):
+    """one fcase for the case's mesh (fresh runs + the runs of the re-used detector object made on it) and one for
+    the session's second mesh"""
+    pairs = list(zip(case["dets"], obs["dets"]))
+    out = []
+    ses, so = case.get("session"), obs.get("session")
+    other = []
+    if ses and so:
+        for st, d in zip(ses["steps"], so["steps"]):
+            (pairs if st["on"] == 0 else other).append((st, d))
+    out.append(fcase_term(obs["tables"], case["exact"], pairs))
+    if other:
+        out.append(fcase_term(so["other_tables"], False, other))
+    return out
 
 
 # ---------------------------------------------------------------------- running the implementation
@@ -195,8 +211,26 @@ def shrink(case, key, budget=25.0):
         return any(k == key for k, _ in fs)
 
     cur = dict(case)
-    if key.startswith("features"):
-        cur2 = dict(cur, starts=[])
+    if key.startswith("reused-"):
+        cur2 = dict(cur, starts=[], dets=[])
+        if still(cur2):
+            cur = cur2
+        ses = cur["session"]
+        # fewer runs of the re-used object (keep order), then drop the second mesh if unused
+        k = 0
+        while k < len(ses["steps"]) and len(ses["steps"]) > 1:
+            cand = dict(ses, steps=ses["steps"][:k] + ses["steps"][k + 1:])
+            if still(dict(cur, session=cand)):
+                ses = cand
+            else:
+                k += 1
+        if ses.get("other") and all(st["on"] == 0 for st in ses["steps"]):
+            cand = dict(ses, other=None)
+            if still(dict(cur, session=cand)):
+                ses = cand
+        cur = dict(cur, session=ses)
+    elif key.startswith("features"):
+        cur2 = dict(cur, starts=[], session=None)
         if still(cur2):
             cur = cur2
         for d in list(cur["dets"]):
@@ -205,7 +239,7 @@ def shrink(case, key, budget=25.0):
                 cur = cur2
                 break
     else:
-        cur2 = dict(cur, dets=[])
+        cur2 = dict(cur, dets=[], session=None)
         if still(cur2):
             cur = cur2
         if key.startswith("cycle"):
@@ -257,7 +291,8 @@ def run(ctx):
         "neighbourhoods) is proved by C01 and evaluated here per case by Coq (wf_b, wf_f)",
         "face normals and corner angle sums are inputs of the detector model (computed by face_normals / corner_angles: C07)",
         "a detector run on a mesh that already went through a run with other options must give the same answers as on "
-        "a fresh mesh (third option set of every case)"]
+        "a fresh mesh (third option set of every case); ONE detector object re-used for 2-4 runs (same mesh and a second "
+        "mesh, options changed between runs) must give after each run the containers of the mesh it just ran on"]
     ctx.regen(sys.modules[__name__])
     b = ctx.build_props(extra_targets=["theories/C15/Run.vo"])
     ctx.hygiene(["Lib", "C15"])
@@ -285,6 +320,9 @@ def run(ctx):
             ctx.count("flag_corners=%s" % d["flag_corners"])
             ctx.count("corner_order=%d" % d["corner_order"])
             ctx.count("mesh %s" % ("already used by a run" if d.get("prior") else "fresh"))
+        if c.get("session"):
+            ctx.count("runs of one re-used detector object: %d" % len(c["session"]["steps"]))
+            ctx.count("re-used detector: %s" % ("two meshes" if c["session"].get("other") else "same mesh"))
         nontrivial = info.get("loops", 0) >= 1 and len(c["faces"]) >= 2
         ctx.case_seen(strip(c), nontrivial=nontrivial,
                       sample={"faces": c["faces"][:6], "info": info} if len(c["faces"]) < 8 else None)
@@ -305,8 +343,9 @@ def run(ctx):
         for i in good:
             bterms.append(border_case_term(cases[i], obs[i]))
             try:
-                fterms.append(feat_case_term(cases[i], obs[i]))
-                fidx.append(i)
+                for ft in feat_case_terms(cases[i], obs[i]):
+                    fterms.append(ft)
+                    fidx.append(i)
             except ValueError:
                 pass
         bad_b = ctx.run_cases("border", HEADER, bterms, "check_border", case_type="bcase", shard=max(20, len(bterms) // 16 + 1))
